@@ -123,6 +123,9 @@ struct Obj {
   uint64_t size = 0;
   std::vector<uint8_t> b;
   std::map<uint64_t, std::shared_ptr<z3::expr>> s;
+  // word cache: a symbolic value stored whole at an offset is returned whole by a load of the same width
+  // (keeps word-level structure instead of extract/concat over bytes); every overlapping store invalidates it
+  std::map<uint64_t, std::pair<unsigned, std::shared_ptr<z3::expr>>> words;
   bool freed = false, heap = false;
   const Function* fn = nullptr;
   std::string name;
@@ -336,7 +339,7 @@ static bool feasible(const State& s, const z3::expr& extra, std::vector<uint64_t
     z3::check_result r = sv.check();
     double dt = now() - t0;
     ST.solver_s += dt;
-    if (getenv("SYMEX_DUMP") && dt > 0.1) { static int nd = 0; if (nd++ < 5) fprintf(stderr, "---- query %.3fs\n%s\n", dt, sv.to_smt2().c_str()); }
+    if (getenv("SYMEX_DUMP") && dt > 0.05) { static int nd = 0; if (nd++ < 5) fprintf(stderr, "---- query %.3fs\n%s\n", dt, sv.to_smt2().c_str()); }
     ST.queries++;
     if (r == z3::unknown) bound("solver returned unknown (timeout " + std::to_string(optQueryTimeoutMs) + " ms)");
     CacheEnt ce;
@@ -511,6 +514,13 @@ static unsigned signedBitsFor(__int128 lo, __int128 hi) {  // smallest n with -2
   while (n < 120 && !(lo >= -((__int128)1 << (n - 1)) && hi < ((__int128)1 << (n - 1)))) n++;
   return n;
 }
+static bool isPow2(u128 c, unsigned& k) { if (c == 0 || (c & (c - 1))) return false; k = 0; while (!((c >> k) & 1)) k++; return true; }
+static z3::expr shlConst(const z3::expr& x, unsigned k) {  // x * 2^k as concat(extract, zeros): no multiplier circuit
+  unsigned w = x.get_sort().bv_size();
+  if (k == 0) return x;
+  if (k >= w) return bvval(0, w);
+  return z3::concat(x.extract(w - 1 - k, 0), bvval(0, k));
+}
 static z3::expr narrowTo(const z3::expr& e, unsigned n) { return n == e.get_sort().bv_size() ? e : e.extract(n - 1, 0); }
 
 // ---------------------------------------------------------------- violations
@@ -580,7 +590,19 @@ static const Obj* robj(State& s, uint64_t ptr, uint64_t n, const char* what) {
   if (off + n > o->size) fatalViolation(s, "oob", 2);
   return o;
 }
+static void dropWords(Obj& o, uint64_t off, uint64_t n) {
+  if (o.words.empty() || n == 0) return;
+  auto it = o.words.lower_bound(off >= 16 ? off - 16 : 0);
+  while (it != o.words.end() && it->first < off + n) {
+    uint64_t wb = (it->second.first + 7) / 8;
+    if (it->first + wb > off) it = o.words.erase(it); else ++it;
+  }
+}
 static Val loadBytes(const Obj* o, uint64_t off, unsigned n, unsigned w) {
+  if (!o->words.empty()) {
+    auto wi = o->words.find(off);
+    if (wi != o->words.end() && wi->second.first == w) { Val v; v.w = w; v.e = wi->second.second; return v; }
+  }
   bool anysym = false;
   if (!o->s.empty())
     for (unsigned i = 0; i < n; i++)
@@ -610,6 +632,7 @@ static void storeInt(State& s, uint64_t ptr, const Val& v) {
   robj(s, ptr, n, "store");
   Obj& o = wobj(s, ptr >> 32);
   uint64_t off = ptr & 0xffffffffu;
+  dropWords(o, off, n);
   if (!v.sym()) {
     for (unsigned i = 0; i < n; i++) {
       o.b[off + i] = (uint8_t)(v.c >> (8 * i));
@@ -617,6 +640,7 @@ static void storeInt(State& s, uint64_t ptr, const Val& v) {
     }
     return;
   }
+  if (v.w >= 16 && v.w % 8 == 0) o.words[off] = {v.w, v.e};
   z3::expr e = *v.e;
   if (v.w < n * 8) e = z3::zext(e, n * 8 - v.w);
   for (unsigned i = 0; i < n; i++) {
@@ -837,6 +861,9 @@ static Val binop(unsigned op, const Val& a, const Val& b) {
     case Instruction::Add: return symv(w, x + y, po);
     case Instruction::Sub: return symv(w, x - y, po);
     case Instruction::Mul: {
+      unsigned k;
+      if (!a.sym() && isPow2(a.c, k)) return symv(w, shlConst(y, k));
+      if (!b.sym() && isPow2(b.c, k)) return symv(w, shlConst(x, k));
       uint64_t n = (uint64_t)sigBits(x) + sigBits(y);
       if (n == 0) return conc(w, 0);
       if (n < w) return symv(w, z3::zext(narrowTo(x, (unsigned)n) * narrowTo(y, (unsigned)n), w - (unsigned)n));
@@ -1083,7 +1110,12 @@ static void memcopy(State& s, uint64_t d, uint64_t sr, uint64_t n) {
   std::vector<uint8_t> tb(so->b.begin() + soff, so->b.begin() + soff + n);
   std::vector<std::pair<uint64_t, std::shared_ptr<z3::expr>>> ts;
   for (auto it = so->s.lower_bound(soff); it != so->s.end() && it->first < soff + n; ++it) ts.push_back({it->first - soff, it->second});
+  std::vector<std::pair<uint64_t, std::pair<unsigned, std::shared_ptr<z3::expr>>>> tw;
+  for (auto it = so->words.lower_bound(soff); it != so->words.end() && it->first < soff + n; ++it)
+    if (it->first + (it->second.first + 7) / 8 <= soff + n) tw.push_back({it->first - soff, it->second});
   Obj& o = wobj(s, d >> 32);
+  dropWords(o, doff, n);
+  for (auto& p : tw) o.words[doff + p.first] = p.second;
   for (uint64_t i = 0; i < n; i++) o.b[doff + i] = tb[i];
   if (!o.s.empty()) {
     auto a = o.s.lower_bound(doff);
@@ -1186,7 +1218,7 @@ static void runPath(State s) {
             if (iv.sym()) {
               anySym = true;
               z3::expr ie = iv.w < 64 ? z3::sext(*iv.e, 64 - iv.w) : (iv.w > 64 ? iv.e->extract(63, 0) : *iv.e);
-              soff = soff + ie * Z.bv_val(scale, 64);
+              { unsigned k; soff = soff + (isPow2(scale, k) ? shlConst(ie, k) : ie * Z.bv_val(scale, 64)); }
             } else
               coff += sx(iv) * (int64_t)scale;
           }
